@@ -168,12 +168,21 @@ func scenarioC17(rc *RunCtx) {
 	if !exhaustive {
 		nFiles = t.Int("c17.nfiles", 1, 4)
 	}
+	// "any number of such files": many entries that can be opened but not read, while the process is close to its
+	// descriptor limit and the property opens a file itself
+	fdPressure := !exhaustive && t.Chance("c17.fd_pressure", 6)
+	if fdPressure {
+		nFiles = 30 + t.Int("c17.fd_nfiles", 0, 70)
+		rc.Inc("fault.descriptor_limit_close")
+	}
 	stem := strings.TrimSuffix(files[0], ".fail")
 	var kinds []string
 	for i := 0; i < nFiles; i++ {
 		var kind string
 		arg := 0
-		if exhaustive {
+		if fdPressure {
+			kind = "directory"
+		} else if exhaustive {
 			n := len(valid)
 			f := t.Enum("c17.fault", 9*n)
 			if f < n {
@@ -195,13 +204,19 @@ func scenarioC17(rc *RunCtx) {
 			_ = os.WriteFile(path, corrupt(kind, valid, sub, arg), 0o644)
 		}
 		kinds = append(kinds, kind)
-		rc.Inc("fault.file." + kind)
+		if !fdPressure || i == 0 {
+			rc.Inc("fault.file." + kind)
+		}
 	}
 	f1 := fl
 	cc := genClockChoice(t, fl.ShrinkTime, 8, 2, 0, 0, 0)
-	withFiles := RunCheck(target, RunOpt{Name: name, Dir: dir, Flags: f1, Clock: cc.Resolve(0)})
+	headroom := 0
+	if fdPressure {
+		headroom = 10
+	}
+	withFiles := RunCheck(target, RunOpt{Name: name, Dir: dir, Flags: f1, Clock: cc.Resolve(0), OpenProbe: fdPressure, FDHeadroom: headroom})
 	rc.Note(withFiles)
-	clean := RunCheck(target, RunOpt{Name: name, Dir: rc.FreshDir(), Flags: f1, Clock: cc.Resolve(0)})
+	clean := RunCheck(target, RunOpt{Name: name, Dir: rc.FreshDir(), Flags: f1, Clock: cc.Resolve(0), OpenProbe: fdPressure, FDHeadroom: headroom})
 	rc.SimNs += int64(clean.SimElapsed)
 	rc.Sample = fmt.Sprintf("faults=%v failingTarget=%v %v verdict(with files)=%s verdict(clean)=%s\n%s", kinds, failingTarget, fl, withFiles.Verdict, clean.Verdict, target)
 	rc.Tracef("faults on durable state: %v (reference file %d bytes)", kinds, len(valid))
